@@ -371,7 +371,7 @@ func init() {
 			return s
 		},
 		Run:  c06Run,
-		Rule: "expression trees over the pool {0,1,2,7,-3 (variable),1.5,2.0,\"a\",\"b\",\"\",true,false,nil} and all 13 binary operators + '!': every depth-1 tree; every (a∘b)∘c and a∘(b∘c) for all operator pairs and all operand triples; every (a∘b)∘(c∘d) for all operator triples over a reduced pool; the depth-3 chains a∘((b∘c)∘d), ((a∘b)∘c)∘d, a∘(b∘(c∘d)) for all operator triples over a pool of 3 (5 thorough); '!' applied to leaves and subtrees. Each tree is printed with minimal parentheses under the stated precedence table, with full parentheses, with redundant parentheses around every leaf, and with recording operands (short-circuit observation), rendered on the real code and compared with a reference evaluator in Go. Number spellings: every pair of literals from {5, 05, 0.5, .5, 2.0, 10.25, .25} with + * / < == > written with spaces, tight (a∘b), parenthesised tight ((a)∘(b)) and as array elements, against Go arithmetic on the same values. Unspecified coercions (bool op non-bool, string compared with non-string, bool+bool) are only checked for totality. Non-trivial: tree has at least two operators.",
+		Rule: "expression trees over the pool {0,1,2,7,-3 (variable),1.5,2.0,\"a\",\"b\",\"\",true,false,nil} and all 13 binary operators + '!': every depth-1 tree; every (a∘b)∘c and a∘(b∘c) for all operator pairs and all operand triples; every (a∘b)∘(c∘d) for all operator triples over a reduced pool; the depth-3 chains a∘((b∘c)∘d), ((a∘b)∘c)∘d, a∘(b∘(c∘d)) for all operator triples over a pool of 3 (5 thorough); '!' applied to leaves and subtrees. Each tree is printed with minimal parentheses under the stated precedence table, with full parentheses, with redundant parentheses around every leaf, and with recording operands (short-circuit observation), rendered on the real code and compared with a reference evaluator in Go. Printed form: \"v=\" + x equals \"v=\" followed by what <%= x %> prints, for 16 numeric / boolean operands incl. floats that print in exponent form. Number spellings: every pair of literals from {5, 05, 0.5, .5, 2.0, 10.25, .25} with + * / < == > written with spaces, tight (a∘b), parenthesised tight ((a)∘(b)) and as array elements, against Go arithmetic on the same values. Unspecified coercions (bool op non-bool, string compared with non-string, bool+bool) are only checked for totality. Non-trivial: tree has at least two operators.",
 		Bound: func(th bool) string {
 			if th {
 				return "depth-2 trees (4-leaf shape over a pool of 7 operands, 3-leaf shapes over all 13) and depth-3 chains over a pool of 5"
@@ -468,6 +468,23 @@ func c06Run(t *engine.T, shard string) {
 
 // c06Spellings: the value of a numeric literal does not depend on what is written right after it.
 func c06Spellings(t *engine.T) {
+	// string + x concatenates the printed form of x: the form an output tag prints for x
+	for _, f := range []string{"1000000.0", "0.00001", "123456789.5", "100000.0", "1.5", "2.0", "0.1", "1000000", "0", "true", "false", "1000.0 * 1000.0", "1.0 / 3.0", "0.00001 * 0.5", "2 * 3", "7 / 2"} {
+		src := `<%= "v=" + ` + f + ` %>|<%= "" + ` + f + ` + "" %>`
+		solo := `<%= ` + f + ` %>`
+		t.Case("printed-form "+q(src), true, func() (string, *engine.Fail) {
+			printed, err := Render(solo, plush.NewContext())
+			if err != nil {
+				return "", engine.Failf("mismatch", "%s fails: %v", solo, err)
+			}
+			out, err := Render(src, plush.NewContext())
+			want := "v=" + printed + "|" + printed
+			if err != nil || out != want {
+				return "", engine.Failf("mismatch", "expected %q (the printed form of the operand is %q), got %q / %v", want, printed, out, err)
+			}
+			return "printed-form", nil
+		})
+	}
 	lits := []struct {
 		src string
 		val interface{}
